@@ -522,7 +522,7 @@ def check(run, props):
     tid = 0
     if 'C16' in props:
         use = absfiles
-        cap = 2500 if run.quick else 8000        # TLC checks every file of the bounds; a seeded sample of them is rendered and read
+        cap = 2500 if run.quick else 4000        # TLC checks every file of the bounds; a seeded sample of them is rendered and read
         run.extra['abstract_files_total'] = len(use)
         if len(use) > cap:
             rng.shuffle(use)
@@ -530,12 +530,12 @@ def check(run, props):
         for f in use:
             tid += 1
             items.append((tid, 'abs', f))
-        for j in range(150 if run.quick else 1200):
+        for j in range(150 if run.quick else 600):
             tid += 1
             items.append((tid, 'generic', run.seed * 1000003 + j))
         tid += 1
         items.append((tid, 'big', 0))
-    ntopo = (300 if run.quick else 1500)
+    ntopo = (300 if run.quick else 600)
     for j in range(ntopo):
         tid += 1
         items.append((tid, 'topo', run.seed * 1000003 + 7 * j + 1))
